@@ -43,7 +43,10 @@ class RestreamedBytesIO(object):
         datalen = len(data)
         while len(self.wbuffer) >= self.encoderunit:
             data, self.wbuffer = self.wbuffer[:self.encoderunit], self.wbuffer[self.encoderunit:]
-            self.substream.write(self.encoder(data))
+            data = self.encoder(data)
+            written = self.substream.write(data)
+            if written is not None and written != len(data):
+                raise IOError("could not write all bytes to the underlying stream, %s of %s" % (written, len(data)))
         self.sincereadwritten += datalen
         return datalen
 
